@@ -504,6 +504,8 @@ def run_check(prop, harness_specs, tier, seed, explanation, level="other", budge
         "engine": "SX (own proxy-based symbolic executor over z3 %s); encoding regenerated by executing %s/pams on every run" % (_z3v(), REPO),
         "known_findings_reported": [f"{hn}:{tag}" for hn, tag in sorted(known_hits)],
         "not_exhausted_units": not_exhausted,
+        "not_exhausted_cases": [{"harness": units[c][2], "case": units[c][3]} for c in sorted(case_open)
+                                if not stop and (case_open[c] > 0 or not case_ok[c])][:40],
     }
     if cvc5_tot:
         cov["second_solver_cvc5"] = dict(cvc5_tot, note="assertion obligations that z3 proved by a real query, re-discharged "
